@@ -173,13 +173,14 @@ PROPS.update({
         level_text="Seeded exploration: generated multi-module models (jittered channels, random draws, chained/pre-scheduled timers, restarts) are "
                    "executed twice back to back in one process and again in a second set of worker processes that first run a seed-derived "
                    "number of unrelated simulations and allocate a heap prelude; all traces (time, module, message, random values, result) "
-                   "must be identical. No reference model is involved. Sampled, not exhaustive.",
+                   "must be identical. One program in six whose run ends without error hands the returned application to a second runtime (same seed) "
+                   "and runs it again; both lives are part of the compared trace. No reference model is involved. Sampled, not exhaustive.",
         level_note="Trusted: the trace recorder (records never contain module ids, counters or addresses).",
         runs={"quick": 100000, "thorough": 4500000},
         rule="generated network models x des seeds; each executed 2x in-process and 1x in another process after warm-up sims; distinct = "
              "distinct program hash; non-trivial = the trace contains a jittered delivery or a random draw",
         fault_probes=["other_thread_set_up_a_simulation_during_a_handler"],
-        expected_probes=["topology_routes_queried", "other_thread_set_up_a_simulation_during_a_handler"],
+        expected_probes=["topology_routes_queried", "other_thread_set_up_a_simulation_during_a_handler", "application_run_a_second_time"],
         assumptions=["traces abstract from process-dependent identities by construction", "sampled programs, not exhaustive"]),
     "C07": net_prop(
         level_text="Seeded exploration: traffic patterns (bursts, gaps below / equal to / above the transmission time, sizes 64 B..4 KiB) over "
